@@ -27,5 +27,3 @@ pub mod c18;
 pub mod c20;
 #[cfg(kani)]
 pub mod oracles;
-#[cfg(kani)]
-pub mod exp;
